@@ -142,8 +142,9 @@ def addTo (i : Nat) (ds : List (Tag × Dest)) (info : List SegInfo) : List SegIn
 def setTy (i : Nat) (ty : SegType) (info : List SegInfo) : List SegInfo :=
   modAt i (fun s => { s with ty := ty }) info
 
-/-- `if type != "leap_end": type = "leap_start"` (to-coda; repaired behaviour, fixes/C09-7): a segment that is
-itself the target of a jump stays a leap destination -/
+/-- `if type != "leap_end": type = "leap_start"` (what fixes/C09-7 made of the to-coda branch; since fixes/C09-8 a
+To Coda sets no type at all — the jump to the coda waits in `await` until the da capo / dal segno, the real leap,
+has been taken — and `stToCoda` no longer uses this; kept for the simp sets of Proofs/C09Nav) -/
 def keepLeapEnd (i : Nat) (info : List SegInfo) : List SegInfo :=
   modAt i (fun s => { s with ty := if s.ty = .leapEnd then .leapEnd else .leapStart }) info
 
@@ -223,7 +224,7 @@ def stToCoda (L : Layout) (times : List Int) (i : Nat) (b : BInfo) (idSe : Dest)
     | none => none
     | some ct => match idOf times ct with
       | none => none
-      | some d => some { st with info := keepLeapEnd i (addTo i [(Tag.plain, idSe), (Tag.nav2, d)] st.info) }
+      | some d => some { st with info := addTo i [(Tag.plain, idSe), (Tag.nav2, d)] st.info }
   else some st
 
 /-- da capo (target = first point) and dal segno (target = first segno) -/
